@@ -18,7 +18,7 @@ NameSeq == SetToSeq(N \cup {<<>>})
 BaseSeq == SetToSeq(B)
 Pairs   == SetToSeq({<<b, q>> : b \in B, q \in N})
 
-Cases == [ segs  |-> Segs,
+Cases == [ segs  |-> DefaultSegs,
            nseg  |-> NSEG,
            names |-> NameSeq,
            pairs |-> Pairs,
